@@ -22,7 +22,7 @@ const c14aRule = "exporter and importer HTTPTransfer with generated name sets (m
 	"then for one small dump the body is truncated at EVERY byte offset (fresh importer each); oracle: clean matched names == exporter's entries (Walk multiset), everything else untouched / nothing imported, truncated => imported subset of exported entry-wise equal, Import never panics; " +
 	"non-trivial = >=2 names on a side and at least one fault, or a truncation sweep ran"
 
-const c14bRule = "gob types hash laws over a pool of 12 types (8 structs, two structs with the same package and type name under different import paths, two defined types of basic kind): rapid draws a subset, two registration orders with multiplicities and an extra type; each order is evaluated in a FRESH process (the test binary re-executes itself) printing GobTypesHash(); " +
+const c14bRule = "gob types hash laws over a pool of 14 types (8 structs, two structs with the same package and type name under different import paths, two defined types of basic kind, slices of pool types): rapid draws a subset, two registration orders with multiplicities and an extra type; each order is evaluated in a FRESH process (the test binary re-executes itself) printing GobTypesHash(); " +
 	"oracle: equal for equal sets (any order, any repetition, any process), different after adding a type; non-trivial = subset of >=2 types with a repetition or a genuinely different order"
 
 type rtFault struct {
@@ -512,7 +512,35 @@ func propHashLaws(c *Case) {
 		h3 := childHash(c, o3)
 		c.Tracef("adding type %d: order %v -> %d", extra, o3, h3)
 		c.Assert(h3 != h1, "hash-ignores-added-type", "adding type #%d to %v did not change the types hash (%d)", extra, set, h1)
+
+		// two further types: processes whose type sets differ must not be taken for compatible
+		if len(others) >= 2 {
+			extra2 := others[(c.Pick("extra2", len(others)-1)+1+intIndex(others, extra))%len(others)]
+
+			// prefer a type related to the first one (T and []T / []*T)
+			if rel, ok := map[int]int{0: 12, 12: 0, 1: 13, 13: 1}[extra]; ok && c.Bool("extra2.related") {
+				for _, o := range others {
+					if o == rel {
+						extra2 = rel
+					}
+				}
+			}
+			o4 := append(append([]int{}, o3...), extra2)
+			h4 := childHash(c, o4)
+			c.Tracef("adding types %d and %d: order %v -> %d", extra, extra2, o4, h4)
+			c.Assert(h4 != h1 && h4 != h3, "hash-equal-for-different-sets", "the type sets %v and %v (+%d, +%d) have the same types hash %d", set, o4, extra, extra2, h4)
+		}
 	}
+}
+
+func intIndex(xs []int, v int) int {
+	for i, x := range xs {
+		if x == v {
+			return i
+		}
+	}
+
+	return 0
 }
 
 const c14cRule = "late registration, evaluated in a FRESH process per case: types of a drawn set are registered, an exporter (one Export() handler, created once) serves a first import, then a further type is registered and a value of it is cached, and a second import through the SAME handler must again reproduce the exporter's cache (both sides now have the new types hash); " +
